@@ -154,6 +154,19 @@ pub fn run_session(case: &Value) -> Value {
             anomalies.push(json!({"cmd": text, "wait": w,
                 "events": evs.iter().map(ev_json).collect::<Vec<_>>()}));
         }
+        // RENUM may fail for reasons the manual does not enumerate (then it changes nothing): the
+        // recorded event says whether it did, the specification checks the rest
+        let mut c = c.clone();
+        if kind == "direct" {
+            let failed = evs.iter().any(|e| matches!(e, Ev::Errors(_)));
+            if let Some(st) = c["stmts"].as_array_mut() {
+                for s_ in st.iter_mut() {
+                    if s_["k"] == "renum" {
+                        s_["obsfail"] = json!(failed);
+                    }
+                }
+            }
+        }
         recs.push(json!({"cmd": c, "text": text, "ints": ints, "intpre": intpre, "intprobe": intprobe,
             "resp": items(&evs), "wait": w, "probe": tlc_probe(&s), "steps": s.steps}));
         if w == "panic" {
